@@ -453,7 +453,10 @@ public:
                                       StringRef name,
                                       SmallVectorImpl<char>& storage) {
     LookupContext context{*this, decl, startTok,
-                          /*shellEscapeInAndOut*/ name == "command"};
+                          /*shellEscapeInAndOut*/
+                          // Like Ninja, only the file name parameters see the
+                          // unescaped paths.
+                          name != "depfile" && name != "rspfile"};
     llvm::raw_svector_ostream os(storage);
     lookupBuildParameter(&context, name, os);
     return os.str();
